@@ -4,6 +4,8 @@ import (
 	"fmt"
 	"go/token"
 	"go/types"
+	"sort"
+	"strings"
 
 	"golang.org/x/tools/go/ssa"
 
@@ -48,6 +50,7 @@ func runC02(c *core.Ctx) {
 	c02R4(c)
 	c02R5(c)
 	c02R7(c)
+	c02R8(c, "C02.R8")
 }
 
 // chanValidPred: channel.ChannelType != ChannelInvalid for the *security.Channel value ch
@@ -431,5 +434,41 @@ func c02R7(c *core.Ctx) {
 			ok = false
 		})
 		c.Check(ok && n == 2, rule, fnName(f)+":returns stored link or topic", f.Pos(), "a shortcut expands to the stored string, anything else is passed through", "GetLink returns something other than the stored link or the topic itself")
+	}
+}
+
+// c02R8: channel option accessors read the option they are named after.
+func c02R8(c *core.Ctx, rule string) {
+	c.Rule(rule, "channel options: TTL reads \"ttl\", Last reads \"last\", Exclude reads \"me\" and is true exactly for ok ∧ value == 0, Window reads \"from\" and \"until\"; getOption returns the parsed value of the first option with that key", 5)
+	want := map[string][]string{"TTL": {`"ttl"`}, "Last": {`"last"`}, "Exclude": {`"me"`}, "Window": {`"from"`, `"until"`}}
+	names := []string{"Exclude", "Last", "TTL", "Window"}
+	for _, n := range names {
+		f := fn(c, rule, "internal/security", "Channel", n)
+		if f == nil {
+			continue
+		}
+		var got []string
+		for _, call := range eng.Calls(f, false, M+"security.Channel.getOption") {
+			if k, ok := eng.CallArgs(call.Common())[1].(*ssa.Const); ok && k.Value != nil {
+				got = append(got, k.Value.ExactString())
+			}
+		}
+		sort.Strings(got)
+		w := append([]string{}, want[n]...)
+		sort.Strings(w)
+		c.Check(strings.Join(got, ",") == strings.Join(w, ","), rule, fnName(f)+":option name", f.Pos(), n+" reads option "+strings.Join(w, ","), fmt.Sprintf("Channel.%s reads option(s) [%s], expected [%s]", n, strings.Join(got, ","), strings.Join(w, ",")))
+	}
+	if f := fn(c, rule, "internal/security", "Channel", "Exclude"); f != nil {
+		calls := eng.Calls(f, false, M+"security.Channel.getOption")
+		ok := len(calls) == 1
+		if ok {
+			v, okv := extractOf(calls[0].Value(), 0), extractOf(calls[0].Value(), 1)
+			p1 := eng.ValuePred("ok", okv, true)
+			p2 := eng.EqPred("v == 0", true, func(x, y ssa.Value) bool { k, isC := eng.ConstInt(y); return x == v && isC && k == 0 })
+			t1, _ := eng.TrueImplies(f, 0, p1)
+			t2, _ := eng.TrueImplies(f, 0, p2)
+			ok = t1 && t2 && eng.HasLicensingEdgeOrValue(f, p1) && eng.HasLicensingEdgeOrValue(f, p2)
+		}
+		c.Check(ok, rule, fnName(f)+":me=0", f.Pos(), "Exclude ≡ option present ∧ value == 0", "Channel.Exclude is not `ok && v == 0` of the me option")
 	}
 }
